@@ -23,6 +23,13 @@ AReturnViol(r) ==
        \cup (IF sum > (2 * kk - 1) * opt.w THEN {"exceeds-(2k-1)-optimum"} ELSE {})
        \cup (IF kk = 1 /\ sum # opt.w THEN {"k1-not-minimum"} ELSE {})
        \cup (IF Len(out) = Dim(G) /\ sum < opt.w THEN {"lighter-than-optimum"} ELSE {})
+ADegradedReturnViol(r, ws) ==          \* after a rejected Emit (see Mcb!DegradedReturnViol): the weight clauses only
+  IF kk = 0 THEN {"k0-not-rejected"}
+  ELSE IF ws < 0 THEN {}
+  ELSE LET opt == Opt(G) IN
+            (IF ~Close(r, ws) THEN {"ret-ne-emitted-weight"} ELSE {})
+       \cup (IF ws > (2 * kk - 1) * opt.w THEN {"exceeds-(2k-1)-optimum"} ELSE {})
+       \cup (IF kk = 1 /\ ws # opt.w THEN {"k1-not-minimum"} ELSE {})
 AThrewViol == IF kk = 0 THEN (IF Len(out) # 0 THEN {"k0-emitted-something"} ELSE {}) ELSE {"threw-on-valid-input"}
 C05Clauses == {"empty-cycle", "duplicate-edge", "foreign-edge", "not-simple-cycle", "dependent", "too-many-cycles",
                "wrong-count", "ret-ne-emitted-weight", "lighter-than-optimum", "threw-on-valid-input", "crash", "bad-input"}
